@@ -14,6 +14,7 @@ mod e2_quorumwaiter;
 mod e2_sender;
 mod e2_store;
 mod e3_cons;
+mod e4_fuzz;
 mod e4_netsim;
 mod monitor;
 mod sexp;
@@ -76,6 +77,7 @@ fn main() {
         "quorumwaiter" => e2_quorumwaiter::run(&o),
         "cons" => e3_cons::run(&o),
         "netsim" => e4_netsim::run(&o),
+        "fuzz" => e4_fuzz::run(&o),
         x => {
             eprintln!("unknown engine {}", x);
             std::process::exit(2);
